@@ -129,6 +129,9 @@ void GlobalGraph::switchNodes(Graph::NodeId nodeA, Graph::NodeId nodeB)
 {
   Graph::NodeId father, son;
 
+  nodeMustExist_(nodeA, "first node to switch");
+  nodeMustExist_(nodeB, "second node to switch");
+
   nodeStructureType::iterator nodeARow = nodeStructure_.find(nodeA);
   nodeStructureType::iterator nodeBRow = nodeStructure_.find(nodeB);
   nodeStructureType::iterator nodeSonRow, nodeFatherRow;
